@@ -264,6 +264,8 @@ PARAM_NAMES = ["name", "num", "n", "v", "verbose", "val", "a_b", "a", "ab", "x",
                "opt", "echo", "e", "dry", "f", "T", "c", "my_opt", "b", "abc", "no_x", "h",
                "config", "l", "list", "w", "p"]
 STR_VALUES = ["abc", "x", "", "5", "a b", "val", "-5", "meh"]
+# characters/shapes that break naive string handling (format(), strip(), replace("_","-"), ...)
+HOSTILE = ["{", "}", "{0}", "{name}", "%s", "my_app", " lead", "trail ", "a\nb", "UPPER", "\u00e9t\u00e9", ""]
 
 
 def gen_default(rng):
@@ -305,6 +307,8 @@ def gen_task(rng, name, max_params=5):
             t["optional"].append(pn)
         elif d["k"] in ("none", "empty") and r < 0.40:
             t["iterable"].append(pn)
+            if r > 0.36:
+                t["optional"].append(pn)       # both optional-value and iterable
         elif d["k"] == "int" and r < 0.5:
             t["incrementable"].append(pn)
         elif d["k"] == "bool" and d["v"] is False and r < 0.3:
@@ -362,7 +366,7 @@ def alphabet(specs, init_spec, rng=None):
         names.append(c["name"])
         names.extend(c["aliases"])
     toks.extend(names)
-    values = ["abc", "5", "-5", "x", "007", "a b", "+3", "1.5"] + names[:2]
+    values = ["abc", "5", "-5", "x", "007", "a b", "+3", "1.5"] + names[:2] + HOSTILE
     toks.extend(values)
     shorts = []
     for c in specs + ([init_spec] if init_spec else []):
@@ -381,6 +385,9 @@ def alphabet(specs, init_spec, rng=None):
             if tv or (rng and rng.random() < 0.3):
                 toks.append(fl + "=")
                 toks.append(fl + "=abc")
+                toks.append(fl + "=" + (rng.choice(HOSTILE) if rng else "{0}"))
+                if fl.startswith("--"):
+                    toks.append("--" + fl[2:].replace("-", "_") + "=a_b")
             if not fl.startswith("--"):
                 toks.append(fl + "5")
                 toks.append(fl + "abc")
@@ -392,7 +399,7 @@ def alphabet(specs, init_spec, rng=None):
     if len(shorts) >= 3:
         toks.append("-" + "".join(shorts[:3]))
     toks.extend(["--nope", "-z", "-zq", "--nope=1", "-", "--", "", "---", "-=", "--=x", "-a-",
-                 "-x=--", "--no-nope"])
+                 "-x=--", "--no-nope", "--{0}", "-{", "--my_opt=a_b", "--NOPE", "-%s"])
     seen, out = set(), []
     for t in toks:
         if t not in seen:
@@ -413,7 +420,7 @@ def spell_line(rng, specs, init_spec):
                 return ["-" + fl[1] * rng.randint(2, 3)]
             return [fl]
         val = rng.choice(["5", "-3", "42"] if a["kind"] == "KInt" and rng.random() < 0.85
-                         else ["abc", "x", "5", "v1", "a b", "-q", "", "build", "t"])
+                         else ["abc", "x", "5", "v1", "a b", "-q", "", "build", "t"] + HOSTILE)
         if a["optional"] and rng.random() < 0.4:
             return [fl]
         r = rng.random()
@@ -483,11 +490,11 @@ def mutate_line(rng, argv, alpha):
     return argv
 
 
-FUZZ_CHARS = "-=abnvT5e x"
+FUZZ_CHARS = "-=abnvT5e x{}%_A\n"
 
 
 def fuzz_token(rng):
-    return "".join(rng.choice(FUZZ_CHARS) for _ in range(rng.randint(0, 6))).strip(" ") or "-"
+    return "".join(rng.choice(FUZZ_CHARS) for _ in range(rng.randint(0, 6))) or "-"
 
 
 def int_unsafe(tok):
@@ -543,9 +550,26 @@ def spec_by_name(specs, init_spec, name):
 
 
 def has_digit_hazard(tok):
-    """tokens on which Python's int() and the model's parse_int could differ
-    (whitespace or underscore next to digits): never generated."""
-    return any(ch.isdigit() for ch in tok) and any(ch in " \t_" for ch in tok)
+    """True only for tokens on which Python's int() and the model's parse_int could
+    differ when the text reaches an int-kind argument: some text derived from the
+    token (whole token, parts after '=', glued rest) is accepted by int() although it
+    is not of the form [+-]?[0-9]+ (whitespace padding, '1_0', non-ASCII digits).
+    Such tokens are never generated; everything else -- braces, '%s', underscores,
+    padded words, newlines, upper case, non-ASCII letters -- is fair game."""
+    import re
+    cands = [tok, tok[2:]]
+    t = tok
+    while "=" in t:
+        t = t.partition("=")[2]
+        cands += [t, t[2:]]
+    for x in cands:
+        try:
+            int(x)
+        except ValueError:
+            continue
+        if not re.fullmatch(r"[+-]?[0-9]+", x):
+            return True
+    return False
 
 
 # --------------------------------------------------------------------------
@@ -559,7 +583,8 @@ def has_digit_hazard(tok):
 #       | "inv"  (--no-x)          | "rep"/"stack" (counter: -v -v / -vv)
 #       | "next" (flag value)      | "eq" (flag=value) | "glued" (-xvalue) | "pos" (value alone)
 # VALUE = {"b": bool} | {"n": count} | {"s": text} | {"t": True}
-PLAIN_VALUES = ["abc", "x1", "v", "hello", "a b", "1.5", "Z", "k=v", "a=b=c"]
+PLAIN_VALUES = ["abc", "x1", "v", "hello", "a b", "1.5", "Z", "k=v", "a=b=c",
+                "my_app", " lead", "trail ", "{0}", "%s", "a\nb", "\u00e9t\u00e9", "{"]
 INT_VALUES = ["5", "42", "0", "7"]
 
 
@@ -586,6 +611,8 @@ def gen_value(rng, a, task_words, dash_values):
         return rng.choice(INT_VALUES)
     if dash_values and rng.random() < 0.25:
         return rng.choice(["-q", "-5", "--zz", "-xyz", "-"])
+    if rng.random() < 0.12 and task_words:
+        return rng.choice(sorted(task_words))      # a value equal to a task name / alias
     v = rng.choice(PLAIN_VALUES + ["5"])
     return v
 
@@ -695,8 +722,8 @@ def fix_order(c, occs, words):
                 o = dict(o, form="eq")
             if o["form"] == "next" and a["optional"] and (v.startswith("-") or v in words):
                 o = dict(o, form="eq")
-            if o["form"] == "eq" and a["optional"] and v in words:
-                o = dict(o, val={"s": v + "_"})
+            if a["optional"] and o["val"]["s"] in words:
+                o = dict(o, val={"s": o["val"]["s"] + "_"})
         res.append(o)
     return res
 
@@ -860,7 +887,8 @@ def expected_calls(specs, inv):
     return out
 
 
-WILD_VALUES = ["abc", "-x", "--zz", "-xyz", "-", "--", "", "5", "-5", "k=v", "=v", "a b", "--no-x"]
+WILD_VALUES = ["abc", "-x", "--zz", "-xyz", "-", "--", "", "5", "-5", "k=v", "=v", "a b", "--no-x",
+               "{0}", "%s", "my_app", " lead", "trail ", "a\nb", "-{", "--a_b"]
 
 
 def gen_wild_invocation(rng, specs, max_calls=3):
